@@ -1977,9 +1977,9 @@ def run(ctx):
   check_move_axis(ctx, drv, thorough)
   check_length_inference(ctx, drv, rng, thorough)
   check_axis_size_inference(ctx, drv, rng, thorough)
-  for _ in range(24 if not thorough else 300):
+  for _ in range(16 if not thorough else 300):
     check_submodule_case(ctx, gen_submodule_case(rng))
-  n_scan, n_vmap, n_remat, n_wild = (70, 35, 16, 35) if not thorough else (1200, 600, 200, 600)
+  n_scan, n_vmap, n_remat, n_wild = (62, 32, 14, 32) if not thorough else (1200, 600, 200, 600)
   cases = []
   for _ in range(n_scan):
     cases.append((gen_scan_case(rng, 'valid', kind='scan'), 'valid'))
